@@ -57,6 +57,8 @@ type event struct {
 	Valid  bool                   `json:"valid"`
 	EpcOK  bool                   `json:"epc_ok"`
 	RootOK bool                   `json:"deposit_root_ok"`
+	// KeyMismatch (kickstart_sigs): a secret key that does not belong to the pubkey was supplied
+	KeyMismatch bool `json:"key_mismatch"`
 }
 
 // depKind enumerates how one deposit of a list is made.
@@ -245,6 +247,26 @@ func (r *recorder) run(fn string, pl listPlan, eth1Hash common.Root, eth1Time co
 				usedDeps[i].Data.Signature = placeholder
 			}
 			state, epc, err = phase0.KickStartState(spec, eth1Hash, kickTime, vals)
+		case "kickstart_sigs":
+			// zrnt signs the deposits itself with the given secret keys (and refuses keys that do not match)
+			vals := make([]phase0.KickstartValidatorData, len(deps))
+			keys := make([][32]byte, len(deps))
+			usedDeps = make([]common.Deposit, len(deps))
+			for i := range deps {
+				vals[i] = phase0.KickstartValidatorData{Pubkey: deps[i].Data.Pubkey, WithdrawalCredentials: deps[i].Data.WithdrawalCredentials, Balance: deps[i].Data.Amount}
+				if k, ok := r.ks.KeyOf(deps[i].Data.Pubkey); ok {
+					keys[i] = r.ks.SecretBytes(k)
+				} else {
+					keys[i] = r.ks.SecretBytes(0) // a key that does not match: zrnt must refuse
+					ev.KeyMismatch = true
+				}
+				usedDeps[i].Data = deps[i].Data
+			}
+			state, epc, err = phase0.KickStartStateWithSignatures(spec, eth1Hash, kickTime, vals, keys)
+			if err == nil {
+				// describe the deposits zrnt built: its own signatures are valid proofs of possession, which
+				// the unverified model does not look at; keep the original bytes (they decode)
+			}
 		}
 	}()
 	sigs := chainabs.SigLookup(r.ks)
@@ -255,7 +277,7 @@ func (r *recorder) run(fn string, pl listPlan, eth1Hash common.Root, eth1Time co
 	emptyBody := phase0.BeaconBlockBody{}
 	ebr := emptyBody.HashTreeRoot(spec, tree.GetHashFn())
 	ev.G = gInput{Eth1BlockHash: absstate.ID(eth1Hash[:]), Eth1Time: int(eth1Time), Deposits: absDeps, EmptyBodyRoot: absstate.ID(ebr[:])}
-	if fn == "kickstart" {
+	if fn == "kickstart" || fn == "kickstart_sigs" {
 		ev.G.Eth1Time = 0
 	}
 	ev.Ok = err == nil
@@ -437,14 +459,14 @@ func main() {
 		r := &recorder{spec: spec, ks: ks, rng: rand.New(rand.NewSource(*seed*131 + int64(vi))), enc: json.NewEncoder(f), c: map[string]int{}, p: p}
 		for _, pl := range catalogue(spec) {
 			h := chain.Eth1BlockHash(uint64(len(pl.kinds)) + 17)
-			for _, fn := range []string{"eth1", "eth1_unverified", "kickstart"} {
+			for _, fn := range []string{"eth1", "eth1_unverified", "kickstart", "kickstart_sigs"} {
 				r.run(fn, pl, h, common.Timestamp(1000+r.rng.Intn(20)), common.Timestamp(900+r.rng.Intn(300)))
 			}
 		}
 		for i := 0; i < randomPerVariant; i++ {
 			pl := randomPlan(r.rng, spec)
 			h := chain.Eth1BlockHash(uint64(r.rng.Intn(1000)))
-			fn := []string{"eth1", "eth1", "eth1", "eth1_unverified", "kickstart"}[r.rng.Intn(5)]
+			fn := []string{"eth1", "eth1", "eth1", "eth1_unverified", "kickstart", "kickstart_sigs"}[r.rng.Intn(6)]
 			r.run(fn, pl, h, common.Timestamp(800+r.rng.Intn(1500)), common.Timestamp(800+r.rng.Intn(1500)))
 		}
 		f.Close()
